@@ -76,3 +76,35 @@ func VP_C02_value_wide() {
 	}
 	vp.Cover("end")
 }
+
+// strings at the top of the length range (32765, 32766, 32767 bytes, first and
+// last byte arbitrary) as a root value, in a list and in a compound: captured
+// and re-encoded byte for byte.
+func VP_C02_value_long_strings() {
+	n := []int{32765, 32766, 32767}[vp.Choice(3)]
+	vp.SizeBound(n + 64)
+	vp.Unwind(n + 64)
+	body := make([]byte, n)
+	for i := range body {
+		body[i] = 'a' + byte(i%26)
+	}
+	body[0], body[n-1] = vp.Byte(), vp.Byte()
+	str := append([]byte{byte(n >> 8), byte(n)}, body...)
+	var tag byte
+	var b []byte
+	switch vp.Choice(3) {
+	case 0:
+		tag, b = 8, str
+	case 1:
+		tag, b = 9, append([]byte{8, 0, 0, 0, 1}, str...)
+	default:
+		tag, b = 10, append(append([]byte{8, 0, 1, 'k'}, str...), 0)
+	}
+	var v Value
+	r := &vpByteReader{b: append(append([]byte{}, b...), 0x33), fail: -1}
+	vp.Assert(v.UnmarshalNBT(tag, r) == nil && r.pos == len(b), "a well-formed value is accepted")
+	var w vpBuf
+	vp.Assert(v.MarshalNBT(&w) == nil, "MarshalNBT err==nil")
+	vp.Assert(string(w.b) == string(b), "re-encoding is byte-exact")
+	vp.Cover("end")
+}
